@@ -144,7 +144,9 @@ func ruleIdx1(c *Ctx, r *Reporter) {
 				// every document iteration reaches the index loop
 				if _, hdr := elemSource(found.call.Call.Args[1]); hdr != nil {
 					if body := firstBodyInstr(hdr); body != nil {
-						reachIdx := func(x ssa.Instruction) bool { return x.Block() == found.next.Block() || x == ssa.Instruction(found.next) }
+						reachIdx := func(x ssa.Instruction) bool {
+							return x.Block() == found.next.Block() || x == ssa.Instruction(found.next)
+						}
 						back := func(x ssa.Instruction) bool { return x == hdr }
 						if !reachIdx(body) {
 							if bad := exitWithoutPassingAny(body, reachIdx, back); bad != nil {
@@ -366,8 +368,8 @@ func ruleIdx3(c *Ctx, r *Reporter) {
 		return
 	}
 	allowedFalse := map[string]string{
-		"lungo.NewCatalog":            "the oplog namespace: events carry a document-valued _id {ts}, uniqueness comes from the timestamp generator",
-		"(*lungo.File).BuildCatalog":  "file load: indexes (including _id_) are rebuilt from the stored index definitions",
+		"lungo.NewCatalog":           "the oplog namespace: events carry a document-valued _id {ts}, uniqueness comes from the timestamp generator",
+		"(*lungo.File).BuildCatalog": "file load: indexes (including _id_) are rebuilt from the stored index definitions",
 	}
 	nTrue := 0
 	for _, fn := range c.repoFuncs() {
